@@ -32,6 +32,15 @@ pub struct CheckDef {
     pub assumptions: Vec<&'static str>,
 }
 
+/// Replays go to /verif/replays; background shake-out runs redirect them (and the evidence) with VERIF_OUT_DIR
+/// so that they never touch the files the registered commands write.
+pub fn replay_dir() -> String {
+    match std::env::var("VERIF_OUT_DIR") {
+        Ok(d) if !d.is_empty() => format!("{d}/replays"),
+        _ => "/verif/replays".to_string(),
+    }
+}
+
 pub fn case_seed(seed: u64, scenario: &str, i: u64) -> u64 {
     mix(mix(seed, super::rng::hash_str(scenario)), i)
 }
@@ -514,8 +523,8 @@ pub fn drive(check: &CheckDef, opts: &DriverOpts) -> i32 {
                 let tmp = json!({"check": check.property, "profile": "plain", "scenario": f.scenario, "violation": {
                     "property": f.violation.property, "oracle": "panic.plain", "detail": "", "site_file": f.violation.site_file,
                     "site_line": f.violation.site_line, "message": f.violation.message}, "trace": f.trace});
-                let _ = std::fs::create_dir_all("/verif/replays");
-                let path = format!("/verif/replays/.xprofile-{}-{}.json", std::process::id(), f.i);
+                let _ = std::fs::create_dir_all(replay_dir());
+                let path = format!("{}/.xprofile-{}-{}.json", replay_dir(), std::process::id(), f.i);
                 let _ = std::fs::write(&path, tmp.to_string());
                 let st = Command::new("/verif/sim/target/release/verif-sim").arg("replay").arg(&path).stdin(Stdio::null()).stdout(Stdio::null()).stderr(Stdio::null()).status();
                 let _ = std::fs::remove_file(&path);
@@ -588,8 +597,8 @@ pub fn drive(check: &CheckDef, opts: &DriverOpts) -> i32 {
             "trace": trace,
         });
         let h = super::rng::fnv(serde_json::to_string(&replay["trace"]).unwrap_or_default().as_bytes());
-        let _ = std::fs::create_dir_all("/verif/replays");
-        let path = format!("/verif/replays/{}-{:016x}.json", check.property, h);
+        let _ = std::fs::create_dir_all(replay_dir());
+        let path = format!("{}/{}-{:016x}.json", replay_dir(), check.property, h);
         let _ = std::fs::write(&path, serde_json::to_string_pretty(&replay).unwrap_or_default());
         // confirm in a fresh process
         let confirmed = replay_in_subprocess(&path, part.case_cap_s * 10);
